@@ -33,6 +33,12 @@ def set (t : Tbl κ α) (k : κ) (v : α) : Tbl κ α :=
   | [] => [(k, v)]
   | (k', v') :: rest => if k' = k then (k, v) :: rest else (k', v') :: set rest k v
 
+/-- Sum of `f key value` over all entries. -/
+def sumKV (f : κ → α → Int) (t : Tbl κ α) : Int := (t.map (fun p => f p.1 p.2)).sum
+
+/-- Keys are pairwise distinct. -/
+def Nodup (t : Tbl κ α) : Prop := (t.map (·.1)).Nodup
+
 def keys (t : Tbl κ α) : List κ := t.map (·.1)
 def vals (t : Tbl κ α) : List α := t.map (·.2)
 end Tbl
